@@ -31,7 +31,7 @@ def check(ctx: Ctx, ev: Evidence) -> list[Finding]:
     for sw in GATED.values():
         if sw not in ind.fields:
             raise AnalysisError(f"indication switch {sw} vanished from IndicationCfg")
-    ev.rule("C15-R1", "gated indications occur only where their own switch was read and is true", 6)
+    ev.rule("C15-R1", "gated indications occur only where their own switch was read and is true", 4)
     ev.rule("C15-R2", "with the switch on every corresponding event carries its indication; busy->idle carries Transaction-Finished", 10)
     ev.rule("C15-R3", "causal order of indications relative to PDUs and steps", 6)
     ev.rule("C15-R4", "indication parameters originate from the PDU fields / the block the Finished PDU is built from", 4)
@@ -70,14 +70,14 @@ def check(ctx: Ctx, ev: Evidence) -> list[Finding]:
             for i, x in inds:
                 if x.name in GATED:
                     sw = cfg_of(e, "cfg.indication_cfg." + GATED[x.name])
-                    k = f"{which} handler | {x.name} in {x.func.split('.')[-1]} | switch {GATED[x.name]} = {sw}"
+                    k = f"{which} handler | {x.name} | switch {GATED[x.name]} = {sw}"
                     if once(k):
                         ok = sw is True
                         ev.inst("C15-R1", k, "ok" if ok else "violation", x.site)
                         if not ok:
                             why = "is never consulted on this path" if sw == "<untested>" else "is off"
-                            out.append(Finding("C15-R1", f"{which} handler | {x.name} in {x.func.split('.')[-1]} | {why}",
-                                               f"{x.name} is delivered although its switch {GATED[x.name]} {why}", x.site, witness_of(a, e)))
+                            out.append(Finding("C15-R1", f"{which} handler | {x.name} | {why}",
+                                               f"{x.name} (issued in {x.func.split('.')[-1]}) is delivered although its switch {GATED[x.name]} {why}", x.site, witness_of(a, e)))
                 elif x.name not in UNGATED:
                     if once(f"other {x.name}"):
                         ev.inst("C15-R1", f"{which} handler | {x.name} (not one of the four implemented switches)", "ok", x.site)
